@@ -17,6 +17,7 @@
   * `C13_status_row`       (for C15) the `current` row of the usage database after any sweep.
 -/
 import Wormhole.Props.C12
+import Wormhole.Inv.WFDec
 
 namespace Wormhole
 open Generated
@@ -220,6 +221,20 @@ theorem C13_empty_by_deadline {g : GSys} (hI : g.GInv) (hc : g.sys.conns = []) {
   rw [e]
   exact ⟨C13_quiesce_after_faults hI hc hT faults hl (firing_time_ge k hf), C13_deadline_arith k⟩
 
+
+/-- **C13_quiesce_reach.**  The same for every REACHABLE state (`GSys.Reach.ginv`, Inv/Main.lean): after
+    any well-formed history — crashes, restarts, crowding, errors, anything — once no client is connected,
+    a sweep at or after `clock + expirationTicks` (the clock is the time of the last operation) leaves the
+    channel database empty. -/
+theorem C13_quiesce_reach {g : GSys} (hg : g.Reach) (hc : g.sys.conns = []) {now : Time}
+    (hnow : g.clock + expirationTicks ≤ now) : (g.step (.sweep now false)).sys.db.Empty :=
+  C13_quiesce_clock hg.ginv hc hnow
+
+/-- ... and with `k` failed firings before the good one, `periodTicks` apart -/
+theorem C13_empty_by_deadline_reach {g : GSys} (hg : g.Reach) (hc : g.sys.conns = []) {f : Time}
+    (hf : g.clock + expirationTicks ≤ f) (k : Nat) : (g.run (timerFirings f k)).sys.db.Empty :=
+  (C13_empty_by_deadline hg.ginv hc hg.ginv.clockMb hf k).1
+
 /-! ## the status row (for C15) -/
 
 /-- **C13_status_row.**  After any sweep with a usage database, `current` holds exactly one row:
@@ -290,6 +305,31 @@ example := C13_quiesce_after_faults g0_ginv rfl (T := E + 100) (by decide)
 example := C13_empty_by_deadline g0_ginv rfl (T := E + 100) (by decide) (f := 2 * E + 100) (by decide) 2
 #guard decide ((g0.run (timerFirings (2 * E + 100) 2)).sys.db.Empty)
 
+
+/-- `C13_quiesce_reach`: a history from the initial state — two sides meet on a nameplate, exchange a
+    message, one closes, the process crashes inside the other's `add`, comes back, a client reconnects
+    and leaves — then nobody is connected; the history is well-formed, the final state is not empty,
+    and the sweep `expirationTicks` after the last operation empties it -/
+def hist : List Op :=
+  [.connect 1, .recv 1 10 (.int 1) (.bind (some "A") (some "s1") none none),
+   .recv 1 11 (.int 2) (.claim (some "4") "m1"), .recv 1 12 (.int 3) (.open_ (some "m1")),
+   .connect 2, .recv 2 13 (.int 1) (.bind (some "A") (some "s2") none none),
+   .recv 2 14 (.int 2) (.claim (some "4") "m2"), .recv 2 15 (.int 3) (.open_ (some "m1")),
+   .recv 1 16 (.int 4) (.add (some (.str "pake")) (some (.str "x"))),
+   .recv 1 17 (.int 5) (.close none (some "happy")),
+   .crashIn 1 (.recv 2 18 (.int 4) (.add (some (.str "pake")) (some (.str "y")))),
+   .restart 20, .connect 3, .recv 3 21 (.int 1) (.bind (some "B") (some "s1") none none),
+   .recv 3 22 (.int 2) (.open_ (some "zz")), .drop 3]
+def gH : GSys := (GSys.init { usage := true } 0).run hist
+theorem gH_reach : gH.Reach := GSys.reach_of_wfB _ _ hist (by decide +kernel)
+#guard decide (gH.sys.conns = [] ∧ ¬ gH.sys.db.Empty ∧ gH.clock = 22)
+example : gH.sys.conns = [] := by decide +kernel
+example : (gH.step (.sweep (22 + expirationTicks) false)).sys.db.Empty :=
+  C13_quiesce_reach gH_reach (by decide +kernel) (by
+    have : gH.clock = 22 := by decide +kernel
+    rw [this]; exact Int.le_refl _)
+#guard decide ((gH.step (.sweep (22 + expirationTicks) false)).sys.db.Empty)
+
 /-- `C13_status_row`: the example has a usage database; one subscribed connection -/
 example : g.sys.cfg.usage = true := rfl
 example : (g.step (.sweep now false)).sys.udb.current = [⟨0, now, none, 1⟩] :=
@@ -307,4 +347,6 @@ end Wormhole
 #print axioms Wormhole.C13_quiesce_after_faults
 #print axioms Wormhole.C13_deadline_arith
 #print axioms Wormhole.C13_empty_by_deadline
+#print axioms Wormhole.C13_quiesce_reach
+#print axioms Wormhole.C13_empty_by_deadline_reach
 #print axioms Wormhole.C13_status_row
